@@ -150,6 +150,37 @@ Definition ok_rule (ver : ipver) (r : orule) : bool :=
     [false; true].
 Definition ok_rules (ver : ipver) (rs : list located) : bool := forallb (fun l => ok_rule ver (l_rule l)) rs.
 
+(* ------------------------------------------------------------------ the programmed set *)
+(* Model of the IP set layer (felix/nftables/ipsets.go AddOrReplaceIPSet + ApplyUpdates) for one hash:ip set: after
+   ApplyUpdates the kernel set holds the support of the latest replacement (members canonicalised, duplicates merged);
+   with no replacement so far the set does not exist.  `progs dp outs` = the kernel set after each Flush, given the
+   AddOrReplaceIPSet calls `outs` the manager made at the Flushes and the replacement `dp` pending from before. *)
+Fixpoint progs (dp : option (list N)) (outs : list (option (list N))) : list (option (list N)) :=
+  match outs with
+  | [] => []
+  | o :: r => let dp' := match o with Some ms => Some ms | None => dp end in
+              option_map support dp' :: progs dp' r
+  end.
+
+(* Oracle: after every CompleteDeferredWork + ApplyUpdates the set the rule names exists in the kernel and holds
+   exactly the excluded addresses of the history so far. *)
+Fixpoint ok_prog_from (ver : ipver) (pre : list op) (h : list op) (ps : list (option (list N))) : bool :=
+  match h with
+  | [] => match ps with [] => true | _ => false end
+  | Flush :: r =>
+      match ps with
+      | [] => false
+      | p :: ps' =>
+          match p with
+          | None => false
+          | Some l => list_eqb N.eqb l (support (excluded_list ver (rev pre)))
+          end && ok_prog_from ver (Flush :: pre) r ps'
+      end
+  | o :: r => ok_prog_from ver (o :: pre) r ps
+  end.
+Definition ok_prog (ver : ipver) (h : list op) (ps : list (option (list N))) : bool :=
+  if wf_history ver h then ok_prog_from ver [] h ps else true.
+
 (* ------------------------------------------------------------------ one correspondence case *)
 Record case := {
   c_ver : ipver;                            (* IP version of the manager / of the rendered chains *)
@@ -158,8 +189,10 @@ Record case := {
   c_nft : bool;                             (* renderer constructed for nftables *)
   c_offload : bool;                         (* Config.NFTablesFlowTableOffload *)
   c_rules : list located;                   (* every rendered static rule carrying a flow-offload statement, parsed *)
-  c_limits : list (option qos * bool)       (* per workload update: its QoSControls, and whether the REAL renderer put a
+  c_limits : list (option qos * bool);      (* per workload update: its QoSControls, and whether the REAL renderer put a
                                                packet-rate or connection-limit rule into the endpoint's filter chains *)
+  c_prog : list (option (list N))           (* per Flush: the elements of the set THE RULE NAMES in the (fake) kernel after the
+                                               REAL felix/nftables.IPSets applied the manager's calls (ascending; None = no such set) *)
 }.
 
 (* the property's words "a connection or packet rate limit" denote exactly the controls for which Felix renders a limit
@@ -171,5 +204,7 @@ Definition ok_limits (l : list (option qos * bool)) : bool :=
 
 Definition check_case (c : case) : bool * bool :=
   (outs_eqb (run (c_ver c) init (c_ops c)) (c_outs c)
-   && list_eqb located_eqb (static_offload_rules (c_nft c) (c_offload c)) (c_rules c),
-   ok_trace (c_ver c) (c_ops c) (c_outs c) && ok_rules (c_ver c) (c_rules c) && ok_limits (c_limits c)).
+   && list_eqb located_eqb (static_offload_rules (c_nft c) (c_offload c)) (c_rules c)
+   && outs_eqb (progs None (c_outs c)) (c_prog c),
+   ok_trace (c_ver c) (c_ops c) (c_outs c) && ok_rules (c_ver c) (c_rules c) && ok_limits (c_limits c)
+   && ok_prog (c_ver c) (c_ops c) (c_prog c)).
